@@ -528,6 +528,11 @@ func (s *SymDense) ScaleSym(f float64, a Symmetric) {
 func (s *SymDense) SubsetSym(a Symmetric, set []int) {
 	n := len(set)
 	na := a.SymmetricDim()
+	for _, v := range set {
+		if v < 0 || na <= v {
+			panic(ErrIndexOutOfRange)
+		}
+	}
 	s.reuseAsNonZeroed(n)
 	var restore func()
 	if a == s {
